@@ -330,6 +330,148 @@ pub fn enumerate(tier: Tier) -> Vec<Case> {
         }
     }
 
+    // --- 2c. cancelling residual pairs: two components of one widget violated
+    // by +e and -e (all others satisfied). The row model rejects them (two
+    // components fail); a prover / verifier whose separation weights for the two
+    // components coincide would let them through.
+    for place in [Place::First, Place::After(3)] {
+        let (cx, cy) = crate::m5::cancelling_quads(0);
+        let four = fe(4);
+        // range: quads (c-4d, b-4c, a-4b, d'-4a)
+        for i in 0..4usize {
+            for j in i + 1..4 {
+                let mut quads = [fe(1), fe(2), fe(3), fe(0)];
+                quads[i] = cx;
+                quads[j] = cy;
+                let d = fe(2);
+                let c = four * d + quads[0];
+                let b = four * c + quads[1];
+                let a = four * b + quads[2];
+                let dn = four * a + quads[3];
+                let lay = block_layout(vec![merged_row(&[Fam::Range]), RowSpec::zero()], place);
+                let asg = Assign::new(vec![[a, b, c, d], [zero(), zero(), zero(), dn]], vec![zero(), zero()]);
+                cases.push(Case { name: format!("cancel/range/{:?}/{}-{}", place, i, j), lay, asg });
+            }
+        }
+        // logic: residuals dA, dB, dE, (w - AB), op; q_c is free and op is linear in it
+        let logic_case = |name: String, aa: Fe, bb: Fe, ee: Fe, w: Fe, op_target: Fe, cases: &mut Vec<Case>| {
+            let f = w * (w * (fe(4) * w - fe(18) * (aa + bb) + fe(81)) + fe(18) * (aa * aa + bb * bb) - fe(81) * (aa + bb) + fe(83));
+            let den = fe(9) * ee - fe(3) * (aa + bb);
+            if den == zero() {
+                return;
+            }
+            // q_c * den + 3(A+B+E) - 2F = op_target
+            let qc = (op_target - fe(3) * (aa + bb + ee) + fe(2) * f) * inv(den);
+            let mut r = RowSpec::zero();
+            r.q[QLOGIC] = one();
+            r.q[QC] = qc;
+            let lay = block_layout(vec![r, RowSpec::zero()], place);
+            let (a, b, d) = (fe(1), fe(2), fe(3));
+            let asg = Assign::new(vec![[a, b, w, d], [four * a + aa, four * b + bb, zero(), four * d + ee]], vec![zero(), zero()]);
+            cases.push(Case { name, lay, asg });
+        };
+        let dl = |f: Fe| f * (f - fe(1)) * (f - fe(2)) * (f - fe(3));
+        // pairs among the three quad residuals
+        logic_case(format!("cancel/logic/{:?}/dA-dB", place), cx, cy, fe(1), cx * cy, zero(), &mut cases);
+        logic_case(format!("cancel/logic/{:?}/dA-dE", place), cx, fe(2), cy, cx * fe(2), zero(), &mut cases);
+        logic_case(format!("cancel/logic/{:?}/dB-dE", place), fe(3), cx, cy, fe(3) * cx, zero(), &mut cases);
+        // quad residual against the product / op residual
+        let x = fe(7);
+        logic_case(format!("cancel/logic/{:?}/dA-w", place), x, fe(2), fe(1), x * fe(2) - dl(x), zero(), &mut cases);
+        logic_case(format!("cancel/logic/{:?}/dB-w", place), fe(2), x, fe(1), x * fe(2) - dl(x), zero(), &mut cases);
+        logic_case(format!("cancel/logic/{:?}/dE-w", place), fe(2), fe(1), x, fe(2) - dl(x), zero(), &mut cases);
+        logic_case(format!("cancel/logic/{:?}/dA-op", place), x, fe(2), fe(1), x * fe(2), -dl(x), &mut cases);
+        logic_case(format!("cancel/logic/{:?}/dB-op", place), fe(2), x, fe(1), x * fe(2), -dl(x), &mut cases);
+        logic_case(format!("cancel/logic/{:?}/dE-op", place), fe(2), fe(1), x, fe(2), -dl(x), &mut cases);
+        logic_case(format!("cancel/logic/{:?}/w-op", place), fe(3), fe(2), fe(1), fe(6) + fe(5), -fe(5), &mut cases);
+        // fixed base: residuals (bit consistency, xy, x-acc, y-acc) with targets t[0..4]
+        let row = merged_row(&[Fam::Fixed]);
+        let dd = m1::edwards_d();
+        let (ax, ay) = affine(gen_mul(3));
+        for i in 0..4usize {
+            for j in i + 1..4 {
+                let e = fe(6); // beta(2) = 2*1*3 = 6
+                let mut t = [zero(); 4];
+                t[i] = e;
+                t[j] = -e;
+                // bit consistency residual is bit(bit-1)(bit+1): 6 for bit 2, -6 for bit -2, 0 for bit 1
+                let bit = if t[0] == e { fe(2) } else if t[0] == -e { fi(-2) } else { one() };
+                let c = bit * row.q[QC] - t[1];
+                let y_alpha = bit * bit * (row.q[QR] - one()) + one();
+                let x_alpha = bit * row.q[QL];
+                let an = (t[2] + ax * y_alpha + ay * x_alpha) * inv(one() + c * ax * ay * dd);
+                let bn = (t[3] + ay * y_alpha + ax * x_alpha) * inv(one() - c * ax * ay * dd);
+                let s_acc = fe(6);
+                let lay = block_layout(vec![row.clone(), RowSpec::zero()], place);
+                let asg = Assign::new(vec![[ax, ay, c, s_acc], [an, bn, zero(), fe(2) * s_acc + bit]], vec![zero(), zero()]);
+                cases.push(Case { name: format!("cancel/fixed/{:?}/{}-{}", place, i, j), lay, asg });
+            }
+        }
+        // variable base: residuals (x1*y2 - d', x3 identity, y3 identity)
+        let (x1, y1) = affine(gen_mul(2));
+        let (x2, y2) = affine(gen_mul(9));
+        for i in 0..3usize {
+            for j in i + 1..3 {
+                let e = fe(5);
+                let mut t = [zero(); 3];
+                t[i] = e;
+                t[j] = -e;
+                let x1y2 = x1 * y2 - t[0];
+                let y1x2 = y1 * x2;
+                // (x1y2 + y1x2) - x3 (1 + d x1y2 y1x2) = t1 ;  (y1y2 + x1x2) - y3 (1 - d x1y2 y1x2) = t2
+                let x3 = (x1y2 + y1x2 - t[1]) * inv(one() + dd * x1y2 * y1x2);
+                let y3 = (y1 * y2 + x1 * x2 - t[2]) * inv(one() - dd * x1y2 * y1x2);
+                let lay = block_layout(vec![merged_row(&[Fam::Var]), RowSpec::zero()], place);
+                let asg = Assign::new(vec![[x1, y1, x2, y2], [x3, y3, zero(), x1y2]], vec![zero(), zero()]);
+                cases.push(Case { name: format!("cancel/var/{:?}/{}-{}", place, i, j), lay, asg });
+            }
+        }
+        // cross-widget pairs on one row: the first residual of two widgets (and
+        // of a widget against the arithmetic identity) cancel
+        {
+            // range.0 = e with logic.dA = -e is not constructible independently of the
+            // shared wires in general; use range + arithmetic and var + arithmetic,
+            // where the arithmetic residual is free through the public input
+            for (fam, tag) in [(Fam::Range, "range"), (Fam::Var, "var"), (Fam::Fixed, "fixed")] {
+                let lay = block_layout(vec![merged_row(&[fam, Fam::Arith]), RowSpec::zero()], place);
+                let q = lay.rows[0].q;
+                // exactly one custom residual is non-zero
+                let (cur, next) = match fam {
+                    Fam::Range => {
+                        let quads = [fe(5), fe(1), fe(2), fe(3)];
+                        let d = fe(2);
+                        let c = four * d + quads[0];
+                        let b = four * c + quads[1];
+                        let a = four * b + quads[2];
+                        ([a, b, c, d], [zero(), zero(), zero(), four * a + quads[3]])
+                    }
+                    Fam::Var => {
+                        let x1y2 = x1 * y2 - fe(5);
+                        let y1x2 = y1 * x2;
+                        let x3 = (x1y2 + y1x2) * inv(one() + dd * x1y2 * y1x2);
+                        let y3 = (y1 * y2 + x1 * x2) * inv(one() - dd * x1y2 * y1x2);
+                        ([x1, y1, x2, y2], [x3, y3, zero(), x1y2])
+                    }
+                    _ => {
+                        let bit = one();
+                        let c = bit * q[QC] - fe(5);
+                        let y_alpha = bit * bit * (q[QR] - one()) + one();
+                        let x_alpha = bit * q[QL];
+                        let an = (ax * y_alpha + ay * x_alpha) * inv(one() + c * ax * ay * dd);
+                        let bn = (ay * y_alpha + ax * x_alpha) * inv(one() - c * ax * ay * dd);
+                        ([ax, ay, c, fe(6)], [an, bn, zero(), fe(13)])
+                    }
+                };
+                let comps = m1::row_components(&q, zero(), &cur, &next);
+                let e: Fe = comps.iter().skip(1).fold(zero(), |acc, c| acc + *c);
+                let mut asg = Assign::new(vec![cur, next], vec![zero(), zero()]);
+                // arithmetic residual (through the public input) = -e
+                asg.pis[0] = -comps[0] - e;
+                cases.push(Case { name: format!("cancel/cross/{:?}/{}-arith", place, tag), lay, asg });
+            }
+        }
+    }
+
     // --- 3. copy constraints -----------------------------------------------------
     let dists: Vec<usize> = tier.pick(vec![0, 1], vec![0, 1, 2]);
     for dist in dists {
@@ -387,6 +529,8 @@ pub fn enumerate(tier: Tier) -> Vec<Case> {
 }
 
 pub struct Outcome {
+    /// for crafted cancellation cases: exactly two residuals, summing to zero
+    pub cancel_ok: Option<bool>,
     pub name: String,
     pub verdict: m1::Verdict,
     pub real: Real,
@@ -403,7 +547,15 @@ pub fn run_case(cache: &KeyCache, c: &Case) -> Outcome {
     // the fast pre-processed form used by the gadget checks must agree
     let fast = m1::Model::new(&keys.2).decide(&snap);
     assert!(fast == verdict, "m1::Model::decide disagrees with m1::decide: {:?} vs {:?}", fast, verdict);
-    Outcome { name: c.name.clone(), verdict, real, lay_key: c.lay.key(), desc: describe(&c.lay, &c.asg) }
+    let cancel_ok = if c.name.starts_with("cancel/") {
+        let pi = if c.lay.rows[0].has_pi { c.asg.pis[0] } else { zero() };
+        let comps = m1::row_components(&c.lay.rows[0].q, pi, &c.asg.vals[0], &c.asg.vals[1]);
+        let nz: Vec<Fe> = comps.iter().filter(|v| **v != zero()).cloned().collect();
+        Some(nz.len() == 2 && nz[0] + nz[1] == zero())
+    } else {
+        None
+    };
+    Outcome { cancel_ok, name: c.name.clone(), verdict, real, lay_key: c.lay.key(), desc: describe(&c.lay, &c.asg) }
 }
 
 pub fn main(tier: Tier, replay: Option<serde_json::Value>) -> i32 {
@@ -447,6 +599,11 @@ pub fn main(tier: Tier, replay: Option<serde_json::Value>) -> i32 {
         };
         layouts.insert(o.lay_key);
         run.traces_validated += 1;
+        match o.cancel_ok {
+            Some(true) => run.outcome("crafted:cancelling-pair"),
+            Some(false) => run.machinery(format!("crafted case {} is not a cancelling residual pair", o.name)),
+            None => {}
+        }
         let exp = expected(&o.verdict);
         let key = fnv(format!("{}|{}", o.lay_key, o.desc).as_bytes());
         run.nontrivial(key);
@@ -492,6 +649,7 @@ pub fn main(tier: Tier, replay: Option<serde_json::Value>) -> i32 {
     }
     run.gate(">=1 case breaking only a copy constraint", copy_only > 0);
     run.gate(">=1 satisfied case", run.count("model:satisfied") > 0);
+    run.gate("cancelling residual pairs constructed", run.count("crafted:cancelling-pair") >= 50);
     run.gate(">=1 size mismatch case", run.count("model:size-mismatch") > 0);
     run.extra.insert("only_failing_component_counts".into(), json!(COMPONENT_NAMES.iter().zip(only_fail.iter()).map(|(n, c)| (n.to_string(), *c)).collect::<std::collections::BTreeMap<_, _>>()));
     run.extra.insert("copy_only_cases".into(), json!(copy_only));
